@@ -2,8 +2,14 @@
 from .C02 import e2_jobs, META as _M
 
 META = dict(_M)
-CLASSES = ["contracts.C06_all:PairwiseFormulas", "contracts.C06_all:Associativity"]
+CLASSES = ["contracts.C06_all:PairwiseFormulas", "contracts.C06_all:Associativity", "contracts.C06_all:ZeroProbabilityBranch", "contracts.C06_all:GenerateMProcess"]
 
 
 def jobs(tier, seed):
     return e2_jobs("C06", CLASSES, tier, seed)
+
+
+CLAIM = {'engine': 'E2-symtwin', 'level': 'proof',
+ 'text': 'Every supported pairwise composition is executed unmodified on symbolic operands (all real parameters on the equality-constraint set, pairwise different outcome counts) and proved equal to its quantum-mechanical formula written independently (Born rule, Heisenberg picture, post-measurement states, outcome layout earlier-measurement-first); every bracketing of every type-valid chain of length 3-4 (5 thorough) is proved to give the chain statistics, shape and post-states of the reference semantics; zero-probability outcomes and Povm.generate_mprocess (modes 0,1,2) likewise.',
+ 'note': 'all-inputs@config at 1 qubit (qutrit pairs in thorough); regular regime of every thresholded probability is a requires (p >= 2e-8), a zero-probability outcome is covered separately; modes 0/1 relative to the trusted sqrtm / eigh (mode 1 for non-degenerate spectra). Positivity of Born probabilities for PSD operands and physicality of compositions are mathematics, not decided. Floats as reals.',
+ 'technique': 'contract-based deductive verification (symbolic execution of the real source -> VCs, normaliser + z3)'}
